@@ -371,7 +371,7 @@ Definition fverdict := verdict float.
 
 (* Python float division raises ZeroDivisionError exactly when the divisor compares equal to 0.0 *)
 Definition fbin_ok (o : binop) (a b : float) : bool :=
-  match o with ODiv => negb (PrimFloat.eqb b PrimFloat.zero) | _ => true end.
+  match o with ODiv | OFloorDiv | OMod => negb (PrimFloat.eqb b PrimFloat.zero) | _ => true end.
 Definition fof_bool (b : bool) : float := if b then PrimFloat.one else PrimFloat.zero.
 
 Definition err_eqb (a b : err) : bool :=
@@ -390,7 +390,7 @@ Definition verdict_eqb (a b : fverdict) : bool :=
 
 Definition binop_eqb (a b : binop) : bool :=
   match a, b with
-  | OAdd, OAdd | OSub, OSub | OMul, OMul | ODiv, ODiv => true
+  | OAdd, OAdd | OSub, OSub | OMul, OMul | ODiv, ODiv | OFloorDiv, OFloorDiv | OMod, OMod => true
   | _, _ => false
   end.
 
